@@ -280,6 +280,20 @@ def gen_cxx(rng, nclasses, nfuncs):
             cv = rng.choice(["", "", " const", " volatile"])
             ps = params()
             member("void %s(%s)%s" % (m, ps, cv), "void %s::%s(%s)%s" % (q, m, ps, cv), m, "")
+        # ref-qualified member functions: N [r V K] [R | O] <prefix> ... E   (the R/O of <nested-name>)
+        refq = []
+        for _ in range(rng.choice([0, 1, 1, 2, 3])):
+            m = ids.new()
+            cv = rng.choice([" &", " &&", " const &", " const &&", " volatile &", " volatile &&", " const volatile &&"])
+            ps = params()
+            member("int %s(%s)%s" % (m, ps, cv), "int %s::%s(%s)%s" % (q, m, ps, cv), m, "return 0;")
+            refq.append((m, ps, cv))
+        used_ops = set()
+        if rng.random() < 0.5:
+            op, cv = rng.choice(["+", "-", "*", "==", "[]", "()", "<<", "+=", "->"]), rng.choice([" &", " &&", " const &", " const &&"])
+            arg = "" if op == "->" else "int"
+            used_ops.add(op)
+            member("int operator%s(%s)%s" % (op, arg, cv), "int %s::operator%s(%s)%s" % (q, op, arg, cv), "operator" + op, "return 0;")
         if rng.random() < 0.5:
             m = ids.new()
             ps = params()
@@ -287,6 +301,8 @@ def gen_cxx(rng, nclasses, nfuncs):
             defs.append("%sint %s::%s(%s) { return 0; }" % (head, q, m, ps))
             want.add("::".join(full + [m]))
         for op, decl, body in rng.sample(MEMBER_OPS, rng.randrange(0, 6)):
+            if op in used_ops:
+                continue
             d = decl.replace("{C}", q if tmpl else c)
             decls.append(d + ";")
             ret, rest = d.split(" operator", 1)
@@ -311,6 +327,11 @@ def gen_cxx(rng, nclasses, nfuncs):
             want.add("::".join(full + [n, m]))
         out.append("%sstruct %s { %s };" % (head, c, " ".join(decls)))
         out.extend(defs)
+        if refq and not tmpl:
+            m, ps, cv = rng.choice(refq)
+            f = ids.new()
+            out.append("void %s(int (%s::*)(%s)%s, %s) {}" % (f, c, ps, cv, rng.choice(PARAM_TYPES[:12])))
+            want.add("::".join(path + [f]))
         if tmpl:
             out.append("template struct %s<int>;" % c)
             out.append("template struct %s<%s<char*> >;" % (c, c))
